@@ -327,12 +327,14 @@ class ClientSSM(SSM):
         self.invokeID = apdu.apduInvokeID
         if _debug: ClientSSM._debug("    - invoke ID: %r", self.invokeID)
 
-        # compute the segment count
-        if not apdu.pduData:
-            # always at least one segment
+        # compute the segment count, the header of the request shares the
+        # APDU with the service data: four octets, six when it is segmented
+        if len(apdu.pduData) + 4 <= self.segmentSize:
+            # it fits, always at least one segment
             self.segmentCount = 1
         else:
             # split into chunks, maybe need one more
+            self.segmentSize -= 6
             self.segmentCount, more = divmod(len(apdu.pduData), self.segmentSize)
             if more:
                 self.segmentCount += 1
@@ -804,12 +806,14 @@ class ServerSSM(SSM):
                 self.segmentSize = min(self.device_info.maxNpduLength, self.maxApduLengthAccepted)
             if _debug: ServerSSM._debug("    - segment size: %r", self.segmentSize)
 
-            # compute the segment count
-            if not apdu.pduData:
-                # always at least one segment
+            # compute the segment count, the header of the ack shares the
+            # APDU with the service data: three octets, five when it is segmented
+            if len(apdu.pduData) + 3 <= self.segmentSize:
+                # it fits, always at least one segment
                 self.segmentCount = 1
             else:
                 # split into chunks, maybe need one more
+                self.segmentSize -= 5
                 self.segmentCount, more = divmod(len(apdu.pduData), self.segmentSize)
                 if more:
                     self.segmentCount += 1
